@@ -88,6 +88,12 @@ class Tup:
 
 
 @dataclass(frozen=True)
+class AnyIndex:
+    """A sequence every element of which is the abstract value `item` (data[i] for an unknown i)."""
+    item: Any
+
+
+@dataclass(frozen=True)
 class FuncRef:
     qualname: str
 
@@ -95,6 +101,14 @@ class FuncRef:
 @dataclass(frozen=True)
 class Opaque:
     what: str
+
+
+class Closure:
+    """A lambda / nested def together with the environment it was created in."""
+
+    def __init__(self, node, env):
+        self.node = node
+        self.env = env
 
 
 class Obj:
@@ -354,6 +368,42 @@ class Interp:
         return Tup(tuple(self.ev(x, env, f) for x in e.elts))
 
     _e_List = _e_Tuple
+
+    def _e_Subscript(self, e, env, f):
+        v = self.ev(e.value, env, f)
+        if isinstance(v, AnyIndex):
+            return v.item
+        if isinstance(v, Tup) and isinstance(e.slice, ast.Constant) and isinstance(e.slice.value, int):
+            return v.items[e.slice.value]
+        raise AnalysisError(f"abstract evaluator: subscript `{short(e)}` of {v!r}")
+
+    def run_function_node(self, node: ast.AST, owner: FuncInfo, args: List[Any], closure: Dict[str, Any]):
+        """Evaluate a nested def / lambda node with positional args in a closure environment."""
+        a = node.args
+        names = [x.arg for x in a.posonlyargs + a.args]
+        env = dict(closure)
+        defaults = [None] * (len(names) - len(a.defaults)) + list(a.defaults)
+        for i, n in enumerate(names):
+            if i < len(args):
+                env[n] = args[i]
+            elif defaults[i] is not None:
+                env[n] = self.ev(defaults[i], closure, owner)
+            else:
+                raise AnalysisError(f"abstract evaluator: missing argument {n}")
+        env.setdefault("__module__", owner.module)
+        try:
+            if isinstance(node, ast.Lambda):
+                return ("return", self.ev(node.body, env, owner))
+            try:
+                self.exec_body(node.body, env, owner)
+            except _Return as r:
+                return ("return", r.value)
+            return ("return", NONE)
+        except Raised as r:
+            return ("raise", r.exc)
+
+    def _e_Lambda(self, e, env, f):
+        return Closure(e, env)
 
     def _e_UnaryOp(self, e, env, f):
         if isinstance(e.op, ast.Not):
